@@ -93,10 +93,16 @@ def zeroize_fn(F):
     return None
 
 
+def clone_fns(F):
+    """hand-written Clone methods of the state types: whole-object replacement, decided by rule_clone (field coverage), not by
+    the reset / gate rules"""
+    return set(p for p in F.fns if "core::clone::Clone>::clone" in norm_path(p) or "std::clone::Clone>::clone" in norm_path(p))
+
+
 def rule_S1(ctx, F):
     """reset coverage: every Hasher field written through &mut Hasher anywhere is written by reset"""
     F.need_fn(RESET)
-    cut = {RESET}
+    cut = {RESET} | clone_fns(F)
     z = zeroize_fn(F)
     if z:
         cut.add(z)
@@ -164,7 +170,7 @@ def rule_S2(ctx, F):
     ctor = F.need_fn(CTOR)
     C = leaf_map(F, ret_expr(ctor))
     ctx.floor("constructor leaf fields", len(C), 8)
-    cut = {RESET}
+    cut = {RESET} | clone_fns(F)
     z = zeroize_fn(F)
     if z:
         cut.add(z)
@@ -267,6 +273,52 @@ def rule_S2(ctx, F):
     ctx.floor("reset writes", n, 2)
 
 
+def _handwritten_clone(ctx, F, ty, imp):
+    """a hand-written Clone: `clone` builds Self with every field taken from the same field of self (copied or cloned), and
+    `clone_from`, if overridden, assigns EVERY field of self from the same field of the source on the way to its return"""
+    fields = [f["name"] for f in F.adt_fields(ty)]
+    cl = cf = None
+    for p, f in F.fns.items():
+        np_ = norm_path(p)
+        if np_ == "<%s as core::clone::Clone>::clone" % ty and f.has_body:
+            cl = f
+        if np_ == "<%s as core::clone::Clone>::clone_from" % ty and f.has_body:
+            cf = f
+    if cl is None:
+        raise MissingAnchor("<%s as Clone>::clone" % ty)
+    e = val(cl.expr_local(0))
+    okc = e[0] == "adt" and tuple(e[3]) == tuple(fields) if len(e) > 3 else False
+    bad = []
+    if okc:
+        for name, op in zip(e[3], e[4]):
+            so = show(op)
+            if not ("self.%s" % name in so and (so == "self.%s" % name or "clone(" in so)):
+                bad.append("%s := %s" % (name, so[:60]))
+    ctx.ob(okc and not bad, "clone-handwritten:%s:clone" % ty, cl.loc, "; ".join(bad) or ("clone() builds %s from every field of self" % ty if okc else "clone() does not build a complete %s: %s" % (ty, show(e)[:80])))
+    if cf is None:
+        return
+    covered_f = {}
+    rets = cf.returns()
+    for bi, si, s_ in cf.stmts():
+        pl = s_["place"]
+        if pl["l"] == 1 and len(pl["p"]) >= 2 and pl["p"][0] == "deref" and isinstance(pl["p"][1], dict) and pl["p"][1].get("of") == ty:
+            name = pl["p"][1]["f"]
+            so = show(val(cf.expr_rvalue(s_["rv"])))
+            if len(pl["p"]) == 2 and ("source.%s" % name in so or "other.%s" % name in so or ".%s" % name in so) and all(cf.dominates(bi, r) for r in rets):
+                covered_f[name] = "assigned"
+    for bi, t in cf.calls():
+        cn = norm_path(callee_name(t["callee"]))
+        if cn.endswith("::clone_from") and len(t["args"]) == 2:
+            ev = val(cf.expr_call(t))
+            a, b = show(ev[2][0]), show(ev[2][1])
+            for name in fields:
+                if a.endswith("self.%s" % name) and b.endswith(".%s" % name) and all(cf.dominates(bi, r) for r in rets):
+                    covered_f[name] = "clone_from"
+    miss = [n for n in fields if n not in covered_f]
+    ctx.ob(not miss, "clone-handwritten:%s:clone_from" % ty, cf.loc,
+           "clone_from leaves %s of the destination untouched: the result is not a copy of the source" % miss if miss else "clone_from assigns every field (%s)" % ", ".join("%s: %s" % kv for kv in sorted(covered_f.items())))
+
+
 def rule_clone(ctx, F):
     """clone independence by type structure (S4, clone clause)"""
     n = 0
@@ -285,9 +337,12 @@ def rule_clone(ctx, F):
         ctx.ob(a.get("freeze") is True, "freeze:%s" % ty, a["s"], "type has no interior mutability (Freeze=%s)" % a.get("freeze"))
     for ty in ("Hasher", "ChunkState", "Output", "OutputReader"):
         imp = [i for i in F.impls if i["self"] == ty and i["trait"] and norm_path(i["trait"]) == "core::clone::Clone"]
+        if len(imp) == 1 and not imp[0]["derived"]:
+            _handwritten_clone(ctx, F, ty, imp[0])
+            continue
         ctx.ob(len(imp) == 1 and imp[0]["derived"], "clone-derived:%s" % ty, imp[0]["s"] if imp else "",
                "Clone for %s is #[derive]d (field-wise copy of plain data)" % ty if imp and imp[0]["derived"]
-               else "Clone for %s is hand-written or missing: cannot conclude it copies every field" % ty)
+               else "Clone for %s is missing" % ty)
     ctx.floor("state fields inspected", n, 18)
 
 
@@ -310,7 +365,7 @@ def public_entries(F):
 def rule_S3(ctx, F):
     """writers funnel: a function that writes Hasher fields is reachable from the public API only
     through a gate (reset, set_input_offset, zeroize, update_with_join)"""
-    gates = set(GATES)
+    gates = set(GATES) | clone_fns(F)      # a hand-written clone_from replaces the whole object (rule_clone decides its coverage)
     z = zeroize_fn(F)
     if z:
         gates.add(z)
@@ -585,3 +640,31 @@ def rule_ZP(ctx, F):
     ctx.ob(not own, "buffer-fields-written-only-by-own-methods", "", "writers of %s.%s/%s: %s" % (S, B, L, sorted(writers)))
     ctx.floor("length resets with zeroing", n_reset, 1)
     ctx.floor("zero-length constructions", n_agg, 1)
+
+
+def rule_TM(ctx, F):
+    """tail merge (Rust twin of TMC): every ChunkState::update on self.chunk_state in Hasher::update_with_join either sits under
+    `self.chunk_state.count() > 0` or is followed, before any return, by self.merge_cv_stack(self.chunk_state.chunk_counter)"""
+    u = F.need_fn("Hasher::update_with_join")
+    sites = []
+    merges = [bi for bi, t in u.calls() if callee_name(t["callee"]) == "Hasher::merge_cv_stack"]
+    for bi, t in u.calls():
+        if callee_name(t["callee"]) != "ChunkState::update":
+            continue
+        e = val(u.expr_call(t))
+        if "chunk_state" not in show(e[2][0]):
+            continue
+        gs = guards_at(u, bi)
+        guarded = False
+        for c, tr in gs:
+            sc = show(c) if isinstance(c, tuple) else str(c)
+            if "count(" in sc and "chunk_state" in sc and ((" Gt 0" in sc.replace("const ", "") and tr is True) or (" Eq 0" in sc and tr is False) or (" Ne 0" in sc and tr is True)):
+                guarded = True
+        # every path from the call to a return passes a merge_cv_stack call
+        merged = bool(merges) and not any(any(u.paths_avoiding(s_, r, set(merges)) for s_ in u.succ(bi)) for r in u.returns())
+        sites.append((t.get("s", u.loc), guarded, merged))
+    for i, (w, guarded, merged) in enumerate(sites):
+        ctx.ob(guarded or merged, "own-chunk-bytes-imply-merged-stack#%d" % (i + 1), w,
+               "self.chunk_state.update(..) %s" % ("under self.chunk_state.count() > 0" if guarded else "followed on every path by merge_cv_stack" if merged
+                                                   else "may give an EMPTY chunk state its first bytes without merging the CV stack"))
+    ctx.floor("own-chunk update sites in update_with_join", len(sites), 2)
